@@ -135,12 +135,19 @@ def collect(prop, tier):
         notes = ["formula of another property failed in this run: %s (scenario %d); run that property's check" % (k, v) for k, v in sorted(others.items())]
         if model_note:
             notes.append(model_note)
-        stable = 0
+        stable, unsettled = 0, 0
         for line in open(obs):
-            if json.loads(line)["stable"]:
+            o = json.loads(line)
+            if o["stable"]:
                 stable += 1
+            if not o["settled"]:
+                unsettled += 1
+        if unsettled * 4 > len(scripts):
+            raise vlib.Infra("%d of %d two-hub scenarios never came to rest: no verdict (machine overloaded?)" % (unsettled, len(scripts)))
+        if unsettled:
+            notes.append("%d of %d two-hub scenarios never came to rest within the budget and were not judged as quiescent states" % (unsettled, len(scripts)))
         cov = dict(states=m["states"], transitions=m["states"], distinct_states=m["distinct"], traces_validated_against_impl=len(scripts),
-                   samples=[scripts[len(scripts) // 2]], scripts=len(scripts), stable_scenarios=stable, monitor_violation_lines=nmon,
+                   samples=[scripts[len(scripts) // 2]], scripts=len(scripts), stable_scenarios=stable, unsettled_scenarios=unsettled, monitor_violation_lines=nmon,
                    known_findings_hit=sorted(known_hits), exhaustive=False,
                    rule="stage M: Hub2 exhaustive within the bounds; stage G: simulated environment scripts; every script runs on two real "
                         "hubs (real TLS websockets, real MdnsManager over an ether, TCP proxies), judged at quiescence")
